@@ -97,3 +97,128 @@ Qed.
 
 Lemma strnlen_s_writes c str smax bos : writes_in nowhere (strnlen_s c str smax bos).
 Proof. apply strnlen_s_prog_writes. Qed.
+
+(* ================= C05: handler invocations vs. return code ================= *)
+Ltac cne := let H := fresh in intro H; vm_compute in H; discriminate H.
+Ltac rep1 := (apply report_one; cne).
+Ltac herr := (apply handle_error_hspec; cbn [hspec]; rep1).
+
+Lemma fail_str_hspec code : code <> 0 -> hspec (report_post HStr) [] (fail_str code).
+Proof. intros H. cbn. apply report_one; auto. Qed.
+
+Lemma bos_overflow_hspec c d dmax : d <> 0 -> 1 <= dmax <= rmax_str c ->
+  hspec (report_post HStr) [] (bos_overflow c d dmax).
+Proof.
+  intros Hd Hm. unfold bos_overflow. apply strnlen_s_prog_hspec_ok; auto. intros len.
+  destruct (rmax_str c <? len); herr.
+Qed.
+
+Lemma chk_dest_str_hspec c d dmax destbos (k : unit -> prog Z) :
+  0 <= dmax -> (destbos = BOS_UNKNOWN \/ 1 <= destbos) ->
+  (d <> 0 -> 1 <= dmax -> hspec (report_post HStr) [] (k tt)) ->
+  hspec (report_post HStr) [] (chk_dest_str c d dmax destbos k).
+Proof.
+  intros H0 Hb Hk. unfold chk_dest_str.
+  destruct (d =? 0) eqn:E1; [apply fail_str_hspec; cne|]. destruct (dmax =? 0) eqn:E2; [apply fail_str_hspec; cne|].
+  assert (d <> 0) by lia. assert (1 <= dmax) by lia.
+  destruct (destbos =? BOS_UNKNOWN) eqn:E3.
+  - destruct (rmax_str c <? dmax); [apply fail_str_hspec; cne|auto].
+  - destruct (destbos <? dmax) eqn:E4; [|auto].
+    destruct (rmax_str c <? dmax) eqn:E5; [herr|].
+    apply bos_overflow_hspec; auto. destruct Hb; lia.
+Qed.
+
+Lemma copy_loop_rep c w fwd od odmax bumper us n d s sl :
+  hspec (report_post HStr) [] (copy_loop c w fwd od odmax bumper us n d s sl).
+Proof. apply copy_loop_hspec; [apply report_ok|rep1|rep1]. Qed.
+Lemma find_end_rep c w fwd od odmax bumper n d (k : nat -> Z -> prog Z) :
+  (forall n' d', hspec (report_post HStr) [] (k n' d')) ->
+  hspec (report_post HStr) [] (find_end c w fwd od odmax bumper n d k).
+Proof. intros Hk. apply find_end_hspec; auto; rep1. Qed.
+
+Lemma strcpy_s_hspec c d dmax s destbos : 0 <= dmax -> (destbos = BOS_UNKNOWN \/ 1 <= destbos) ->
+  hspec (report_post HStr) [] (strcpy_s c d dmax s destbos).
+Proof.
+  intros H0 Hb. unfold strcpy_s. apply chk_dest_str_hspec; auto. intros Hd H1.
+  destruct (s =? 0); [herr|]. destruct (d =? s); [apply report_ok|].
+  destruct (d <? s); apply copy_loop_rep.
+Qed.
+
+Lemma strcat_s_hspec c d dmax s destbos : 0 <= dmax -> (destbos = BOS_UNKNOWN \/ 1 <= destbos) ->
+  hspec (report_post HStr) [] (strcat_s c d dmax s destbos).
+Proof.
+  intros H0 Hb. unfold strcat_s. apply chk_dest_str_hspec; auto. intros Hd H1.
+  destruct (s =? 0); [herr|].
+  destruct (d <? s); apply find_end_rep; intros; apply copy_loop_rep.
+Qed.
+
+Lemma wcscpy_s_hspec c d dmax s destbos : hspec (report_post HStr) [] (wcscpy_s c d dmax s destbos).
+Proof.
+  unfold wcscpy_s, chk_dest_wstr.
+  destruct (d =? 0); [apply fail_str_hspec; cne|]. destruct (dmax =? 0); [apply fail_str_hspec; cne|].
+  assert (K : hspec (report_post HStr) []
+    (if s =? 0 then handle_error c (wchar_w c) d dmax ESNULLP ;;; Ret ESNULLP
+     else if d =? s then Ret EOK
+     else if d <? s then copy_loop c (wchar_w c) true d dmax s false (Z.to_nat dmax) d s 0
+     else copy_loop c (wchar_w c) false d dmax d false (Z.to_nat dmax) d s 0)).
+  { destruct (s =? 0); [herr|]. destruct (d =? s); [apply report_ok|]. destruct (d <? s); apply copy_loop_rep. }
+  destruct (destbos =? BOS_UNKNOWN).
+  - destruct (rmax_wstr c <? dmax); [apply fail_str_hspec; cne|exact K].
+  - destruct (destbos <? dmax * wchar_w c); [|exact K]. destruct (rmax_wstr c <? dmax); herr.
+Qed.
+
+(* the n-variants: the probes strnlen_s(dest, dmax) / handle_str_bos_overflow report a second time when
+   dmax itself exceeds RSIZE_MAX_STR (possible only with a known object size) or when slen exceeds a
+   known source size while the dest size is unknown; outside these regions: exactly one report *)
+Definition n_region_ok (c : cfg) (dmax slen destbos srcbos : Z) : Prop :=
+  dmax <= rmax_str c /\ (srcbos = BOS_UNKNOWN \/ slen <= srcbos \/ (destbos <> BOS_UNKNOWN /\ 1 <= destbos <= rmax_str c)).
+
+Lemma slen_max_clear_hspec c d dmax : d <> 0 -> 1 <= dmax <= rmax_str c ->
+  hspec (report_post HStr) [] (slen_max_clear c d dmax).
+Proof. intros Hd Hm. unfold slen_max_clear. apply strnlen_s_prog_hspec_ok; auto. intros len. herr. Qed.
+
+Lemma srcbos_branch_hspec c d destbos srcbos slen (k : prog Z) : d <> 0 ->
+  (srcbos = BOS_UNKNOWN \/ slen <= srcbos \/ (destbos <> BOS_UNKNOWN /\ 1 <= destbos <= rmax_str c)) ->
+  hspec (report_post HStr) [] k ->
+  hspec (report_post HStr) [] (if negb (srcbos =? BOS_UNKNOWN) && (srcbos <? slen) then bos_overflow c d destbos else k).
+Proof.
+  intros Hd Hs Hk. destruct (negb (srcbos =? BOS_UNKNOWN) && (srcbos <? slen)) eqn:E; [|exact Hk].
+  apply andb_prop in E. destruct E as [E1 E2]. apply negb_true_iff in E1.
+  destruct Hs as [->|[Hs|[Hs1 Hs2]]]; [rewrite Z.eqb_refl in E1; discriminate|lia|].
+  apply bos_overflow_hspec; auto.
+Qed.
+
+Lemma strncpy_s_hspec c d dmax s slen destbos srcbos : 0 <= dmax -> (destbos = BOS_UNKNOWN \/ 1 <= destbos) ->
+  n_region_ok c dmax slen destbos srcbos ->
+  hspec (report_post HStr) [] (strncpy_s c d dmax s slen destbos srcbos).
+Proof.
+  intros H0 Hb [Hr Hs]. unfold strncpy_s.
+  destruct ((slen =? 0) && negb (d =? 0) && negb (dmax =? 0)); [cbn; apply report_ok|].
+  apply chk_dest_str_hspec; auto. intros Hd H1.
+  destruct (s =? 0); [herr|].
+  destruct (rmax_str c <? slen); [apply slen_max_clear_hspec; auto; lia|].
+  apply srcbos_branch_hspec; auto. destruct (d <? s); apply copy_loop_rep.
+Qed.
+
+(* strncat_s with slen = 0 reports the code it computed, which is 0 when dest is terminated: refuted below *)
+Lemma strncat_s_hspec c d dmax s slen destbos srcbos : 0 <= dmax -> (destbos = BOS_UNKNOWN \/ 1 <= destbos) ->
+  n_region_ok c dmax slen destbos srcbos -> slen <> 0 ->
+  hspec (report_post HStr) [] (strncat_s c d dmax s slen destbos srcbos).
+Proof.
+  intros H0 Hb [Hr Hs] Hsl. unfold strncat_s.
+  replace (slen =? 0) with false by (symmetry; apply Z.eqb_neq; lia). cbn [andb].
+  apply chk_dest_str_hspec; auto. intros Hd H1.
+  destruct (s =? 0); [herr|].
+  destruct (rmax_str c <? slen); [apply slen_max_clear_hspec; auto; lia|].
+  apply srcbos_branch_hspec; auto. destruct (d <? s); apply find_end_rep; intros; apply copy_loop_rep.
+Qed.
+
+Lemma strnlen_s_hspec c str smax bos :
+  hspec (fun hs r => (hs = [] \/ (r = 0 /\ exists code, code <> 0 /\ hs = [(HStr, code)]))) [] (strnlen_s c str smax bos).
+Proof.
+  unfold strnlen_s, strnlen_s_prog.
+  destruct (str =? 0). { cbn. right. split; auto. exists ESNULLP. split; [cne|reflexivity]. }
+  destruct (smax =? 0). { cbn. right. split; auto. exists ESZEROL. split; [cne|reflexivity]. }
+  destruct (rmax_str c <? smax). { cbn. right. split; auto. exists ESLEMAX. split; [cne|reflexivity]. }
+  apply hspec_no_handler; [apply nlen_loop_noh|]. intros a. left. reflexivity.
+Qed.
